@@ -426,7 +426,7 @@ def build(tier):
                           descr='a new miner is created through init.Exec with the value forwarded, gets a claim with zero power; network totals unchanged, miner count + 1',
                           bounds='one call; power state symbolic under its invariant; init answer typed, failing or a syscall error', max_paths=20000)]
     from . import miner_activate, miner_cron, miner_replica
-    return miner_formulas.build_qa(tier) + proven + created + miner_activate.build_for('C02', tier) + miner_cron.build_recover('C02', tier) + miner_cron.build_wpost('C02', tier) + miner_cron.build_clock('C02', tier) + miner_replica.build_for('C02', tier) + miner_replica.build_extend_inner('C02', tier) + miner_replica.build_validate_updates('C02', tier) + miner_cron.build_declare_faults('C02', tier) + miner_cron.build_terminate_sectors('C02', tier) + [Obligation('miner.Partition::record_missed_post', run_missed_post, props_missed_post,
+    return miner_formulas.build_qa(tier) + proven + created + miner_activate.build_for('C02', tier) + miner_activate.build_prove_ni('C02', tier) + miner_cron.build_recover('C02', tier) + miner_cron.build_wpost('C02', tier) + miner_cron.build_clock('C02', tier) + miner_replica.build_for('C02', tier) + miner_replica.build_extend_inner('C02', tier) + miner_replica.build_validate_updates('C02', tier) + miner_cron.build_declare_faults('C02', tier) + miner_cron.build_terminate_sectors('C02', tier) + [Obligation('miner.Partition::record_missed_post', run_missed_post, props_missed_post,
                        descr="a missed proof removes exactly the partition's active power (live - faulty - unproven), leaves it contributing nothing, marks all live power faulty and clears recoveries / unproven",
                        bounds='one partition, power memos symbolic under the nesting invariant; CUTS: expiration-queue rescheduling, validate_state', max_paths=2000)] + [Obligation('miner.Deadline::process_deadline_end[partitions=%d]' % n, run_deadline_end(n), props_deadline_end,
                        descr='closing a deadline records a missed proof for exactly the partitions that were not proven (and are not already entirely faulty), once each; power removed / penalised / newly faulty are the sums over those partitions',
